@@ -347,6 +347,20 @@ def f(n: INT64[...], x: FLOAT[...]):
     return n % 2.0, n % 3, x % 2.0, x % 1.5
 ''', ["n:I:3 x:F:3"])
 
+P("while_condition_and_trailing_break", '''
+@script()
+def f(x: FLOAT[...]):
+    t = x
+    cond = op.ReduceSum(t, keepdims=0) < 4.0
+    while cond:
+        t = t + 1.0
+        cond = op.ReduceSum(t, keepdims=0) < 4.0
+        stop = op.ReduceSum(t, keepdims=0) > 6.0
+        if stop:
+            break
+    return t
+''', ["x:F:2"])
+
 P("same_named_subfunctions_in_two_domains", '''
 from onnxscript.values import Opset
 
@@ -944,6 +958,28 @@ def f(x: FLOAT[...], c: BOOL):
     else:
         t = x
     return x + gain
+'''),
+    ("loop_break_with_else_branch", '''
+@script()
+def f(x: FLOAT[...], n: INT64):
+    t = x
+    for i in range(n):
+        t = t + 1.0
+        c = op.ReduceSum(t, keepdims=0) > 5.0
+        if c:
+            break
+        else:
+            t = t * 2.0
+    return t
+'''),
+    ("loop_index_read_after_the_loop", '''
+@script()
+def f(x: FLOAT[...], n: INT64):
+    t = x
+    i = op.Constant(value_int=7)
+    for i in range(n):
+        t = t + 1.0
+    return t + op.Cast(i, to=1)
 '''),
     ("unsupported_unary_plus", '''
 @script()
